@@ -52,21 +52,29 @@ import (
 // "no state method ran" is observable.
 
 type TkStateP struct {
+	Retag  string // the handler rewrites its CallContext.Method to this on every turn ("" = leaves it alone)
+	Sess   bool   // the handler calls ctx.OpenSession on every turn (errors ignored)
 	Origin string
 	Count  int
 	Limit  int
 }
 type TkStateE struct {
+	Retag  string // the handler rewrites its CallContext.Method to this on every turn ("" = leaves it alone)
+	Sess   bool   // the handler calls ctx.OpenSession on every turn (errors ignored)
 	Origin string
 	Count  int
 	Limit  int
 }
 type TkStateB struct { // implements both interfaces
+	Retag  string // the handler rewrites its CallContext.Method to this on every turn ("" = leaves it alone)
+	Sess   bool   // the handler calls ctx.OpenSession on every turn (errors ignored)
 	Origin string
 	Count  int
 	Limit  int
 }
 type TkStateN struct { // implements neither
+	Retag  string // the handler rewrites its CallContext.Method to this on every turn ("" = leaves it alone)
+	Sess   bool   // the handler calls ctx.OpenSession on every turn (errors ignored)
 	Origin string
 	Count  int
 	Limit  int
@@ -132,6 +140,24 @@ func tkOneRow(v int64) arrow.Array {
 	return b.NewArray()
 }
 
+// tkBehave: what a scripted handler does to its CallContext besides its stream work — retag
+// Method / RequestID (a handler may write these fields; they must not influence what the
+// framework binds tokens to) and open a sticky session from inside a stream turn.
+func tkBehave(retag string, sess bool, cc *vgirpc.CallContext) {
+	if cc == nil {
+		return
+	}
+	if sess {
+		if err := cc.OpenSession(&tkSess{N: 1}, time.Hour); err == nil {
+			tkEvent("opened:" + cc.SessionID())
+		}
+	}
+	if retag != "" {
+		cc.Method = retag
+		cc.RequestID = "retagged"
+	}
+}
+
 func tkProduce(origin string, count *int, limit int, out *vgirpc.OutputCollector, cc *vgirpc.CallContext) error {
 	tkEvent("produce")
 	tkForeign(origin, cc)
@@ -160,21 +186,25 @@ func tkCancel(origin string, cc *vgirpc.CallContext) error {
 }
 
 func (s *TkStateP) Produce(_ context.Context, out *vgirpc.OutputCollector, cc *vgirpc.CallContext) error {
+	defer tkBehave(s.Retag, s.Sess, cc)
 	return tkProduce(s.Origin, &s.Count, s.Limit, out, cc)
 }
 func (s *TkStateP) OnCancel(_ context.Context, cc *vgirpc.CallContext) error {
 	return tkCancel(s.Origin, cc)
 }
 func (s *TkStateE) Exchange(_ context.Context, in arrow.RecordBatch, out *vgirpc.OutputCollector, cc *vgirpc.CallContext) error {
+	defer tkBehave(s.Retag, s.Sess, cc)
 	return tkExchange(s.Origin, &s.Count, in, out, cc)
 }
 func (s *TkStateE) OnCancel(_ context.Context, cc *vgirpc.CallContext) error {
 	return tkCancel(s.Origin, cc)
 }
 func (s *TkStateB) Produce(_ context.Context, out *vgirpc.OutputCollector, cc *vgirpc.CallContext) error {
+	defer tkBehave(s.Retag, s.Sess, cc)
 	return tkProduce(s.Origin, &s.Count, s.Limit, out, cc)
 }
 func (s *TkStateB) Exchange(_ context.Context, in arrow.RecordBatch, out *vgirpc.OutputCollector, cc *vgirpc.CallContext) error {
+	defer tkBehave(s.Retag, s.Sess, cc)
 	return tkExchange(s.Origin, &s.Count, in, out, cc)
 }
 func (s *TkStateB) OnCancel(_ context.Context, cc *vgirpc.CallContext) error {
@@ -196,13 +226,13 @@ func init() {
 func tkNewState(kind, origin string, count, limit int) interface{} {
 	switch kind {
 	case "P":
-		return &TkStateP{origin, count, limit}
+		return &TkStateP{Origin: origin, Count: count, Limit: limit}
 	case "E":
-		return &TkStateE{origin, count, limit}
+		return &TkStateE{Origin: origin, Count: count, Limit: limit}
 	case "B":
-		return &TkStateB{origin, count, limit}
+		return &TkStateB{Origin: origin, Count: count, Limit: limit}
 	}
-	return &TkStateN{origin, count, limit}
+	return &TkStateN{Origin: origin, Count: count, Limit: limit}
 }
 
 func tkStateDesc(st interface{}) (kind string, count, limit int) {
@@ -315,6 +345,7 @@ type tkSlot struct {
 	vcreat int64 // virtual CreatedAt (seconds)
 	callID string
 	method string
+	minter string // the route whose handler run minted it (cursor); == method unless the binding is broken
 	state  interface{}
 	schema []byte
 	insch  []byte // InputSchemaIPC of a call token
@@ -388,7 +419,22 @@ func (w *tkWorld) newInst(name string, f map[string]string) *tkInst {
 		m := m
 		handler := func(_ context.Context, cc *vgirpc.CallContext, p tkParams) (*vgirpc.StreamResult, error) {
 			tkEvent("init:" + m.name)
-			res := &vgirpc.StreamResult{OutputSchema: tkSchema, State: tkNewState(m.kind, m.name, 0, int(p.Value))}
+			limit, retagIdx, sess := int(p.Value%1000), int(p.Value/1000%100), p.Value/100000%2 == 1
+			st := tkNewState(m.kind, m.name, 0, limit)
+			retag := ""
+			if retagIdx > 0 && retagIdx <= len(tkMethods) {
+				retag = tkMethods[retagIdx-1].name
+			}
+			switch x := st.(type) {
+			case *TkStateP:
+				x.Retag, x.Sess = retag, sess
+			case *TkStateE:
+				x.Retag, x.Sess = retag, sess
+			case *TkStateB:
+				x.Retag, x.Sess = retag, sess
+			}
+			res := &vgirpc.StreamResult{OutputSchema: tkSchema, State: st}
+			defer tkBehave(retag, sess && m.typ != "p" && !(m.typ == "d" && (m.kind == "P" || m.kind == "B")), cc) // producers open in their folded first turn
 			if m.in == "i64" {
 				res.InputSchema = tkSchema
 			}
@@ -958,12 +1004,12 @@ func (w *tkWorld) oracle(prop, class, desc string) {
 }
 
 // learnCursor peeks a freshly minted cursor and stores it in a slot.
-func (w *tkWorld) learnCursor(slot string, in *tkInst, ident string, tok []byte) (*tkSlot, error) {
+func (w *tkWorld) learnCursor(slot string, in *tkInst, ident string, tok []byte, minter string) (*tkSlot, error) {
 	cr, cid, m, st, err := in.h.VerifC12PeekCursor(tok, tkAuthOf(ident))
 	if err != nil {
 		return nil, err
 	}
-	s := &tkSlot{kind: "cursor", inst: in.name, ident: ident, tok: tok, vcreat: cr + w.delta, callID: cid, method: m, state: st}
+	s := &tkSlot{kind: "cursor", inst: in.name, ident: ident, tok: tok, vcreat: cr + w.delta, callID: cid, method: m, minter: minter, state: st}
 	if slot != "" && slot != "-" {
 		w.slots[slot] = s
 	}
@@ -989,7 +1035,23 @@ func (w *tkWorld) opInit(l string, f []string, kv map[string]string) {
 	limit, _ := strconv.ParseInt(kv["limit"], 10, 64)
 	sess, _, _ := w.tokRef(kv["sess"])
 	now := w.nowVirtMs()
-	r := w.do(in, "POST", "/"+method+"/init", ident, sess, nil, tkRequestBody(method, limit))
+	// handler behaviour knobs travel in the parameter value: limit + 1000*(index of the method name the
+	// handler retags its CallContext to) + 100000*(handler opens a sticky session in its turns)
+	value := limit % 1000
+	for i, m := range tkMethods {
+		if kv["retag"] == m.name {
+			value += int64(1000 * (i + 1))
+		}
+	}
+	if kv["sessopen"] == "1" {
+		value += 100000
+	}
+	var hdr map[string]string
+	if kv["accept"] == "1" {
+		hdr = map[string]string{"VGI-Session-Accept": "true"}
+	}
+	r := w.do(in, "POST", "/"+method+"/init", ident, sess, hdr, tkRequestBody(method, value))
+	defer w.turnSession(l, in, ident, sess, kv["sess"] != "-" && kv["sess"] != "", kv["sout"], r)
 	cur, call := vgirpc.FindStreamTokens(r.body)
 	base := fmt.Sprintf("init %s %s %s limit=%d sess=%s now=%d", f[1], ident, method, limit, tkOpt(sess, kv["sess"] != "-" && kv["sess"] != ""), now)
 	cls := tkClass(r)
@@ -1003,7 +1065,7 @@ func (w *tkWorld) opInit(l string, f []string, kv map[string]string) {
 		c.Stat("init-" + cls)
 		return
 	}
-	cs, err := w.learnCursor(kv["cur"], in, ident, cur)
+	cs, err := w.learnCursor(kv["cur"], in, ident, cur, method)
 	if err != nil {
 		c.Out(base, "err:minted-cursor-does-not-open")
 		w.oracle("*", "minted-cursor-does-not-open", fmt.Sprintf("%q: cursor minted for %s does not open for it: %v", l, ident, err))
@@ -1118,7 +1180,7 @@ func (w *tkWorld) opCont(l string, f []string, kv map[string]string) {
 
 	// was the call-state cache going to answer? (observed, before the request, for the oracles only)
 	cacheHit := false
-	if curBase != nil && curBase.kind == "cursor" {
+	if curBase != nil && curBase.kind == "cursor" && in.cache > 0 { // a cache configured off (0 entries) never answers
 		want := curBase.callID + "\x00" + tkSpecIdentKey(ident) // documented key layout, restated (not the hooked function)
 		for _, k := range in.h.VerifC15CacheKeys() {
 			if k == want {
@@ -1131,8 +1193,21 @@ func (w *tkWorld) opCont(l string, f []string, kv map[string]string) {
 	if !sessPresent {
 		sess = nil
 	}
-	r := w.do(in, "POST", "/"+method+"/exchange", ident, sess, nil, body)
+	var hdr map[string]string
+	if kv["accept"] == "1" {
+		hdr = map[string]string{"VGI-Session-Accept": "true"}
+	}
+	r := w.do(in, "POST", "/"+method+"/exchange", ident, sess, hdr, body)
+	defer w.turnSession(l, in, ident, sess, sessPresent, kv["sout"], r)
 	cls := tkClass(r)
+	// a session opened from inside the turn is reported on its own model line (turnSession)
+	kept := w.events[:0:0]
+	for _, e := range w.events {
+		if !strings.HasPrefix(e, "opened:") {
+			kept = append(kept, e)
+		}
+	}
+	w.events = kept
 	events := "-"
 	if len(w.events) > 0 {
 		events = strings.Join(w.events, ",")
@@ -1144,7 +1219,7 @@ func (w *tkWorld) opCont(l string, f []string, kv map[string]string) {
 		newTok, _ = vgirpc.FindStreamTokens(r.body)
 		if len(newTok) > 0 {
 			var err error
-			ns, err = w.learnCursor(kv["out"], in, ident, newTok)
+			ns, err = w.learnCursor(kv["out"], in, ident, newTok, method)
 			if err != nil {
 				next = "unopenable"
 				w.oracle("*", "minted-cursor-does-not-open", fmt.Sprintf("%q: continuation cursor does not open for %s: %v", l, ident, err))
@@ -1357,15 +1432,15 @@ func (w *tkWorld) contOracles(l string, in *tkInst, ident, method string, r tkRe
 	}
 
 	// ---- C14: a token only resumes the method that minted it
-	if curGenuine && !curAlt && tkSameIdent(curBase.ident, ident) && curBase.method != method {
+	if curGenuine && !curAlt && tkSameIdent(curBase.ident, ident) && curBase.minter != method {
 		c.Stat("c14-cross-method")
 		if r.panicV != nil {
-			w.oracle("C14", "cross-method-aborts-connection", fmt.Sprintf("%q: token minted by %s at route %s panicked: %v", l, curBase.method, method, r.panicV))
+			w.oracle("C14", "cross-method-aborts-connection", fmt.Sprintf("%q: token minted by %s at route %s panicked: %v", l, curBase.minter, method, r.panicV))
 		} else if r.status != 400 && !(r.status == 404 && !tkRegistered(method)) {
-			w.oracle("C14", "cross-method-not-refused", fmt.Sprintf("%q: token minted by %s at route %s answered %s %s", l, curBase.method, method, tkStatus(r), cls))
+			w.oracle("C14", "cross-method-not-refused", fmt.Sprintf("%q: token minted by %s at route %s answered %s %s", l, curBase.minter, method, tkStatus(r), cls))
 		}
 		if ranCode {
-			w.oracle("C14", "cross-method-code-ran", fmt.Sprintf("%q: token minted by %s at route %s ran %v", l, curBase.method, method, w.events))
+			w.oracle("C14", "cross-method-code-ran", fmt.Sprintf("%q: token minted by %s at route %s ran %v", l, curBase.minter, method, w.events))
 		}
 	}
 	if len(w.foreign) > 0 {
@@ -1430,6 +1505,7 @@ func (w *tkWorld) opMint(l string, f []string, kv map[string]string) {
 		if s.method == "-" {
 			s.method = ""
 		}
+		s.minter = s.method
 		s.state = tkNewState(kv["skind"], s.method, cnt, lim)
 		s.tok, err = in.h.VerifC12SealCursor(realCreated, callID, s.method, s.state, a)
 	case "call":
@@ -1656,4 +1732,30 @@ func tkSpecIdentKey(id string) string {
 		return "\x00anonymous"
 	}
 	return a.Domain + "\x00" + a.Principal
+}
+
+// turnSession: a sticky session a handler opened from inside this turn (ctx.OpenSession in an init
+// handler, Exchange or Produce). The minted token must open for the caller of the turn; the model
+// is told through an `sopen` line (OpenSession is the same function whatever handler calls it).
+func (w *tkWorld) turnSession(l string, in *tkInst, ident string, sess []byte, sessPresent bool, slot string, r tkResp) {
+	tok := r.hdr.Get("VGI-Session")
+	if tok == "" || r.panicV != nil {
+		return
+	}
+	ml := fmt.Sprintf("sopen %s %s sess=%s accept=1", in.name, ident, tkOpt(sess, sessPresent))
+	srv, sid, _, err := in.h.VerifC13PeekSession(tok, tkAuthOf(ident))
+	if err != nil {
+		w.c.Out(ml, "err:minted-session-does-not-open")
+		w.oracle("*", "minted-session-does-not-open", fmt.Sprintf("%q: the session token a handler opened in this turn for %s does not open for it: %v", l, ident, err))
+		if _, _, _, e2 := in.h.VerifC13PeekSession(tok, vgirpc.Anonymous()); e2 == nil && tkAuthOf(ident).Authenticated {
+			w.oracle("C13", "session-minted-for-wrong-identity", fmt.Sprintf("%q: the session opened in this turn by %s is sealed for the anonymous caller", l, ident))
+		}
+		return
+	}
+	s := &tkSlot{kind: "session", inst: in.name, ident: ident, tok: []byte(tok), server: srv, sid: sid}
+	if slot != "" && slot != "-" {
+		w.slots[slot] = s
+	}
+	w.c.Out(ml+fmt.Sprintf(" sid=%s tok=%s", X(sid), XS(tok)), "opened")
+	w.c.Stat("turn-opened-session")
 }
